@@ -106,6 +106,8 @@ def gen_call(lib, k, call):
         vn = "%s_%d" % (n, k)
         if kd == "val":
             A.append(flit(args[n], T))
+        elif kd == "fnptr":
+            A.append("vf_cb3")          # bind(C) function of the harness module: i -> 3*i+1
         elif kd in ("implied", "len_hidden"):
             continue
         elif kd in ("cls_cptr", "cls_cref", "cls_ref"):
